@@ -172,9 +172,36 @@ def build(ctx):
     }
 
 
+def replay_f6(ctx):
+    """gdb-driven schedule on the real library: the binder is stopped between its load of the parent's flag and its store into the (already registered) child,
+    the canceller thread runs cancel_group_execution(parent) to completion in between, the binder is released."""
+    import subprocess
+    src = load(TG).split('\n')
+    # the final state copy of the no-grand-ancestor branch: the statement that stores into ctx.my_cancellation_requested in the else-arm after register_with (last such statement of bind_to_impl)
+    s0 = slice_block(TG, r'void task_group_context_impl::bind_to_impl\(d1::task_group_context& ctx, thread_data\* td\)')
+    lines = [i for i, l in enumerate(src, 1) if s0.line <= i <= s0.line + s0.text.count('\n') and 'ctx.my_cancellation_requested.store(' in l]
+    if not lines:
+        return {'reproduced': False, 'detail': 'no statement storing ctx.my_cancellation_requested found in bind_to_impl'}
+    libdir = native.build_tbb_from_source(os.path.join(ctx.work, 'libtbb_dbg'), debug_files=('task_group_context.cpp',))
+    exe = native.build([os.path.join(HERE, 'c04_replay_f6.cpp')], os.path.join(ctx.work, 'c04_replay_f6'), flags=['-g'], link_tbb=True, tbb_dir=libdir)
+    try:
+        p = subprocess.run(['gdb', '-q', '-batch', '-x', os.path.join(HERE, 'c04_replay_f6.gdb.py'), exe], stdout=subprocess.PIPE, stderr=subprocess.STDOUT, timeout=180,
+                           env=dict(os.environ, F6_LINE=str(lines[-1])))
+        out = p.stdout.decode(errors='replace')
+    except Exception as e:
+        return {'reproduced': False, 'detail': 'gdb-driven replay failed to run: %r' % e}
+    rep = {'cmd': 'F6_LINE=%d gdb -batch -x c04_replay_f6.gdb.py %s' % (lines[-1], exe), 'output': out[-1500:], 'reproduced': False, 'detail': 'gdb-driven schedule (canceller between the binder\'s load and store) ended with the child cancelled'}
+    m = re.search(r'REPRODUCED (.*)', out)
+    if m and 'BINDER STOPPED AFTER THE LOAD' in out:
+        rep.update(reproduced=True, detail=m.group(1), witness_class='stale-state-copy')
+    return rep
+
+
 def replay(ctx, jobname, failure):
+    if jobname.startswith('bind.no_missed_cancel'):
+        return replay_f6(ctx)
     if not (jobname.startswith('walk.') or jobname == 'bind.grand_ancestor'):
-        return {'reproduced': False, 'detail': 'no native recipe: the window between registration and the state copy needs a stalled thread inside register_with (see seeded/C04-1/demo.cpp for a white-box scenario)'}
+        return {'reproduced': False, 'detail': 'no native recipe for this job'}
     exe = native.build([os.path.join(HERE, 'c04_replay.cpp')], os.path.join(ctx.work, 'c04_replay'), link_tbb=True, flags=['-fno-access-control'], includes=[os.path.join(ctx.repo, 'src')])
     rep = {'reproduced': False, 'detail': 'native schedules (propagator_first, binder_first) both ended with the bound context cancelled', 'runs': []}
     for sched in ('binder_first', 'propagator_first'):
